@@ -101,7 +101,7 @@ open Qv.Props.C15 (Geom)
 
 /-! ## 1. the allocator loops -/
 
-theorem cs_pos (i : Info) : 0 < i.clusterSize := Nat.two_pow_pos _
+-- (`cs_pos` now lives in `Qv/Proofs/Grow.lean`)
 
 /-- `d'` differs from `d` at most in `rc`, `hint`, `needFlush` -/
 def RcFrame (d d' : Dev) : Prop :=
@@ -342,16 +342,19 @@ theorem RbGrow.rcFrame {d dk dk' : Dev} (g : RbGrow d dk) (f : RcFrame dk dk')
   rw [f.rt, hrc c]
   exact g.rc c
 
+/-- CHANGED (reftable growth): hypothesis `hl1` added — the call did not grow the table
+    (`rtLen` never decreases and every growth raises it, `ensureRefblock_oob_grows`).
+    With growth `RbGrow` is false: the relocation rewrites refcounts of the new table
+    region and releases the old table; see `RtGrowG` for what holds in general. -/
 theorem ensureRefblock_grow {d dk dk1 : Dev} {off : Nat} {r : Outcome Unit} (g : RbGrow d dk)
-    (h : ensureRefblock off dk = (dk1, r)) : RbGrow d dk1 := by
+    (h : ensureRefblock off dk = (dk1, r)) (hl1 : dk1.rtLen = dk.rtLen) : RbGrow d dk1 := by
   have hi : dk.info = d.info := g.frame.info
   have hl : dk.rtLen = d.rtLen := g.frame.rtLen
-  unfold ensureRefblock at h
-  dsimp only at h
   by_cases hlt' : Host.rtIndex dk.info off < dk.rtLen
-  · rw [if_pos hlt'] at h
+  · rw [ensureRefblock_inb hlt', ensureRefblockIn_eq, if_neg (not_not_intro hlt')] at h
     by_cases hz' : RT.isZero (dk.rt.get (Host.rtIndex dk.info off)) = true
-    · rw [if_neg (not_not_intro hz'), if_neg (not_not_intro hlt')] at h
+    · rw [if_pos hz'] at h
+      unfold withRefblockAt at h
       simp only [Prod.mk.injEq] at h
       obtain ⟨hd, _⟩ := h
       generalize hidx : Host.rtIndex dk.info off = rtIdx at hd hlt' hz'
@@ -390,10 +393,12 @@ theorem ensureRefblock_grow {d dk dk1 : Dev} {off : Nat} {r : Outcome Unit} (g :
           rcases g.rc c with e | ⟨idx, cr, hc, h1⟩
           · left; rw [e1]; exact e
           · right; exact ⟨idx, hmono idx cr, hc, by rw [e1]; exact h1⟩
-    · rw [if_pos hz'] at h
+    · rw [if_neg hz'] at h
       simp only [Prod.mk.injEq] at h; rw [← h.1]; exact g
-  · rw [if_neg hlt', if_neg (not_not_intro rt_isZero_zero), if_pos hlt'] at h
-    simp only [Prod.mk.injEq] at h; rw [← h.1]; exact g
+  · rcases ensureRefblock_oob_grows hlt' with e | e
+    · rw [e] at h
+      simp only [Prod.mk.injEq] at h; rw [← h.1]; exact g
+    · rw [h] at e; dsimp only at e; omega
 
 /-- what a successful `allocate_clusters` guarantees -/
 structure AllocSound (d d' : Dev) (count host n : Nat) : Prop extends RtGrow d d' where
@@ -413,15 +418,20 @@ def AllocPost (d : Dev) (count : Nat) (r : Dev × Outcome (Option (Nat × Nat)))
   | .ok none => RbGrow d r.1
   | _ => RtGrow d r.1
 
-theorem tryAllocateFrom_post {d dk : Dev} (g : RbGrow d dk) (hostOff count : Nat) :
+/-- CHANGED (reftable growth): hypothesis `hl` added (no growth in this call) -/
+theorem tryAllocateFrom_post {d dk : Dev} (g : RbGrow d dk) (hostOff count : Nat)
+    (hl : (tryAllocateFrom hostOff count dk).1.rtLen = dk.rtLen) :
     AllocPost d count (tryAllocateFrom hostOff count dk) := by
-  unfold tryAllocateFrom
+  unfold tryAllocateFrom at hl ⊢
   by_cases h0 : count = 0
   · rw [if_pos h0]; exact g.toRtGrow
-  · rw [if_neg h0]
-    generalize he : ensureRefblock hostOff dk = re
+  · rw [if_neg h0] at hl ⊢
+    generalize he : ensureRefblock hostOff dk = re at hl
     rcases re with ⟨dk1, _ | e | p⟩
-    · have g1 := ensureRefblock_grow g he
+    · dsimp only at hl
+      have hsm := tryAllocateLoop_sameMeta (Host.rbHostEnd dk1.info hostOff) count
+        (2 * (dk1.info.rbEntries / max dk1.info.rbSliceEntries 1 + 2 + count) + 4) hostOff count 0 0 dk1
+      have g1 := ensureRefblock_grow g he (by rw [← hl]; exact hsm.2.1.symm)
       dsimp only
       have post := tryAllocateLoop_post (Host.rbHostEnd dk1.info hostOff) count dk1
         (2 * (dk1.info.rbEntries / max dk1.info.rbSliceEntries 1 + 2 + count) + 4) hostOff count 0 0 dk1
@@ -452,35 +462,167 @@ theorem tryAllocateFrom_post {d dk : Dev} (g : RbGrow d dk) (hostOff count : Nat
           · exact Or.inr ⟨idx, hcr idx cr, hc', h1⟩
       · exact g1.toRtGrow.rcFrame post.1
       · exact g1.toRtGrow.rcFrame post.1
-    · exact (ensureRefblock_grow g he).toRtGrow
-    · exact (ensureRefblock_grow g he).toRtGrow
+    · exact (ensureRefblock_grow g he hl).toRtGrow
+    · exact (ensureRefblock_grow g he hl).toRtGrow
 
 theorem AllocSound.setHint {d d1 : Dev} {count o n : Nat} (h : AllocSound d d1 count o n) (x : Nat) :
     AllocSound d { d1 with hint := x } count o n := by
   obtain ⟨⟨fr, rt⟩, a, b, c, e, f⟩ := h
   refine ⟨⟨fr.trans ⟨d1.rt, d1.rc, x, d1.needFlush, rfl⟩, rt⟩, a, b, c, e, f⟩
 
+/-- CHANGED (reftable growth): for runs of the loop that do not grow the table -/
 theorem allocateLoop_post (d : Dev) (count : Nat) (fuel : Nat) :
-    ∀ hostOff dk, RbGrow d dk → AllocPost d count (allocateLoop count fuel hostOff dk) := by
+    ∀ hostOff dk, RbGrow d dk → (allocateLoop count fuel hostOff dk).1.rtLen = dk.rtLen →
+      AllocPost d count (allocateLoop count fuel hostOff dk) := by
   induction fuel with
-  | zero => intro hostOff dk g; exact g.toRtGrow
+  | zero => intro hostOff dk g _; exact g.toRtGrow
   | succ fuel ih =>
-    intro hostOff dk g
-    rw [allocateLoop]
-    dsimp only
+    intro hostOff dk g hl
+    rw [allocateLoop] at hl ⊢
+    dsimp only at hl ⊢
     have post := tryAllocateFrom_post g hostOff count
-    generalize tryAllocateFrom hostOff count dk = r at post
+    have e2 := (tryAllocateFrom_sameInfo hostOff count dk).2.1
+    generalize tryAllocateFrom hostOff count dk = r at post hl e2
     obtain ⟨d1, (_ | ⟨o, n⟩) | e | p⟩ := r
-    · exact ih _ d1 post
-    · dsimp only
+    · dsimp only at hl e2 post ⊢
+      have hm := (allocateLoop_rtLen_mono count fuel (Host.rbHostEnd d1.info hostOff) d1).2.1
+      have h1 : d1.rtLen = dk.rtLen := by omega
+      exact ih _ d1 (post h1) (by omega)
+    · dsimp only at hl e2 post ⊢
       split
-      · exact AllocSound.setHint post _
-      · exact post
-    · exact post
-    · exact post
+      · rename_i hc
+        rw [if_pos hc] at hl
+        exact AllocSound.setHint (post hl) _
+      · rename_i hc
+        rw [if_neg hc] at hl
+        exact post hl
+    · exact post hl
+    · exact post hl
 
-theorem allocateClusters_post (count : Nat) (d : Dev) : AllocPost d count (allocateClusters count d) :=
-  allocateLoop_post d count _ _ d (RbGrow.refl d)
+/-- CHANGED (reftable growth; was unconditional): the post-condition of a call of
+    `allocate_clusters` that did not grow the reftable.  `rtLen` never decreases and
+    each growth raises it, so `d'.rtLen = d.rtLen` says exactly that no growth happened. -/
+theorem allocateClusters_post (count : Nat) (d : Dev)
+    (hl : (allocateClusters count d).1.rtLen = d.rtLen) :
+    AllocPost d count (allocateClusters count d) :=
+  allocateLoop_post d count _ _ d (RbGrow.refl d) hl
+
+/-! ### what holds with reftable growth -/
+
+/-- `d'` differs from `d` at most in the allocator's own fields and in those the
+    relocation of the reftable writes (`rtLen`, the header's reftable offset / size) -/
+def GrowFrame (d d' : Dev) : Prop :=
+  ∃ rt rc hint nf len o c, d' = { d with rt := rt, rc := rc, hint := hint, needFlush := nf,
+                                         rtLen := len, hdrRtOff := o, hdrRtClusters := c }
+
+theorem GrowFrame.refl (d : Dev) : GrowFrame d d :=
+  ⟨d.rt, d.rc, d.hint, d.needFlush, d.rtLen, d.hdrRtOff, d.hdrRtClusters, rfl⟩
+theorem GrowFrame.trans {a b c : Dev} (h1 : GrowFrame a b) (h2 : GrowFrame b c) : GrowFrame a c := by
+  obtain ⟨t1, r1, h1, n1, l1, o1, c1, rfl⟩ := h1
+  obtain ⟨t2, r2, h2, n2, l2, o2, c2, rfl⟩ := h2
+  exact ⟨t2, r2, h2, n2, l2, o2, c2, rfl⟩
+theorem GrowFrame.info {d d' : Dev} (h : GrowFrame d d') : d'.info = d.info := by
+  obtain ⟨_, _, _, _, _, _, _, rfl⟩ := h; rfl
+theorem RcFrame.toGrow {d d' : Dev} (h : RcFrame d d') : GrowFrame d d' := by
+  obtain ⟨r, h, n, rfl⟩ := h
+  exact ⟨d.rt, r, h, n, d.rtLen, d.hdrRtOff, d.hdrRtClusters, rfl⟩
+theorem RcFrame.rtLen {d d' : Dev} (h : RcFrame d d') : d'.rtLen = d.rtLen := by
+  obtain ⟨_, _, _, rfl⟩ := h; rfl
+
+/-- frame + the table never shrinks + the entries of the original table are kept or
+    (if they had no refblock) created.  Holds for every outcome of `allocate_clusters`,
+    with or without growth. -/
+structure RtGrowG (d d' : Dev) : Prop where
+  frame : GrowFrame d d'
+  len : d.rtLen ≤ d'.rtLen
+  rt : ∀ idx, idx < d.rtLen → d'.rt.get idx = d.rt.get idx ∨ Created d d' idx
+
+theorem RtGrowG.refl (d : Dev) : RtGrowG d d := ⟨GrowFrame.refl d, Nat.le_refl _, fun _ _ => Or.inl rfl⟩
+
+/-- `b` is reached from `a` by a step that keeps `RtGrowG` relative to any start -/
+def GrowPres (a b : Dev) : Prop := ∀ d, RtGrowG d a → RtGrowG d b
+
+theorem GrowPres.refl (a : Dev) : GrowPres a a := fun _ h => h
+theorem GrowPres.trans (a b c : Dev) (h1 : GrowPres a b) (h2 : GrowPres b c) : GrowPres a c :=
+  fun d h => h2 d (h1 d h)
+
+theorem RcFrame.growPres {a b : Dev} (f : RcFrame a b) : GrowPres a b := by
+  intro d g
+  refine ⟨g.frame.trans f.toGrow, by rw [f.rtLen]; exact g.len, ?_⟩
+  intro idx hidx
+  unfold Created
+  rw [f.rt]
+  exact g.rt idx hidx
+
+theorem growReftable_growPres (i : Nat) (a : Dev) (hle : a.rtLen ≤ i) :
+    GrowPres a (growReftable i a).1 := by
+  intro d g
+  generalize hr : growReftable i a = r
+  obtain ⟨b, o⟩ := r
+  have hfr : GrowFrame a b := by
+    have := growReftable_frame i a
+    rw [hr] at this
+    exact ⟨_, _, a.hint, _, _, _, _, this⟩
+  rcases growReftable_cases hr with ⟨hip, rfl, _⟩ | ⟨_, _, rfl, _⟩ | ⟨_, _, rfl, _⟩
+  · refine ⟨g.frame.trans hfr, ?_, ?_⟩
+    · have := g.len; have := hip.1
+      show d.rtLen ≤ a.hdrRtClusters * a.info.clusterSize / 8
+      omega
+    · intro idx hidx; exact g.rt idx hidx
+  · refine ⟨g.frame.trans hfr, ?_, ?_⟩
+    · have := g.len
+      have := growNewSize_covers a i
+      show d.rtLen ≤ growNewSize a i / 8
+      omega
+    · intro idx hidx
+      have := g.len
+      have e : (growRelocated a i).rt.get idx = a.rt.get idx :=
+        FMap.get_set_other _ _ _ _ (by omega)
+      unfold Created
+      rw [e]
+      exact g.rt idx hidx
+  · exact g
+
+theorem ensureRefblockIn_growPres (i : Nat) (a : Dev) : GrowPres a (ensureRefblockIn i a).1 := by
+  intro d g
+  rw [ensureRefblockIn_eq]
+  split
+  · exact g
+  · rename_i hlt
+    split
+    · rename_i hz
+      have hi : a.info = d.info := g.frame.info
+      have hfr : GrowFrame a (withRefblockAt a i) :=
+        ⟨_, _, a.hint, true, a.rtLen, a.hdrRtOff, a.hdrRtClusters, rfl⟩
+      refine ⟨g.frame.trans hfr, g.len, ?_⟩
+      intro idx hidx
+      have hrt1 : (withRefblockAt a i).rt = a.rt.set i (BitVec.ofNat 64 (rbOffOf d.info i)) := by
+        unfold withRefblockAt rbOffOf; rw [hi]
+      by_cases hx : idx = i
+      · subst hx
+        right
+        refine ⟨hidx, ?_, by rw [hrt1, FMap.get_set_same]⟩
+        rcases g.rt idx hidx with e | c
+        · rw [← e]; exact hz
+        · exact c.2.1
+      · rcases g.rt idx hidx with e | c
+        · left; rw [hrt1, FMap.get_set_other _ _ _ _ (Ne.symm hx)]; exact e
+        · right
+          refine ⟨c.1, c.2.1, ?_⟩
+          rw [hrt1, FMap.get_set_other _ _ _ _ (Ne.symm hx)]; exact c.2.2
+    · exact g
+
+/-- NEW: the general frame of `allocate_clusters`, whatever its outcome and whether or
+    not the reftable grew -/
+theorem allocateClusters_growFrame (count : Nat) (d : Dev) : RtGrowG d (allocateClusters count d).1 := by
+  refine allocateClusters_rel GrowPres GrowPres.refl GrowPres.trans growReftable_growPres
+    ensureRefblockIn_growPres ?_ ?_ ?_ count d d (RtGrowG.refl d)
+  · intro o n fz a
+    exact (freeClusters_rcFrame (r := (freeClusters o n fz a).2) rfl).growPres
+  · intro off cnt fixed a
+    exact (tryAlloc_rcFrame (r := (tryAllocFromRbSlice off cnt fixed a).2) rfl).growPres
+  · intro a x
+    exact (show RcFrame a { a with hint := x } from ⟨a.rc, x, a.needFlush, rfl⟩).growPres
 
 /-! ### the run lies inside the area covered by the reftable -/
 
@@ -599,11 +741,12 @@ theorem tryAllocateLoop_range (allocCnt hostOff0 : Nat) (i : Info) (g : Geom i) 
       dsimp only at h hst hsm
       exact ih h' c o' dn d' hsm.1 hst.1 hst.2 o n h
 
+/-- CHANGED (reftable growth): the bound is the length of the table after the call -/
 theorem tryAllocateFrom_range (hostOff count : Nat) (d : Dev) (g : Geom d.info)
     (hsl : d.info.rbSliceBits ≤ d.info.cb) (o n : Nat)
     (h : (tryAllocateFrom hostOff count d).2 = .ok (some (o, n))) :
-    Host.rtIndex d.info o < d.rtLen := by
-  have hlt := (tryAllocateFrom_sameInfo hostOff count d).2.2 _ h
+    Host.rtIndex d.info o < (tryAllocateFrom hostOff count d).1.rtLen := by
+  have hlt := (tryAllocateFrom_sameInfo hostOff count d).2.2.2 _ h
   unfold tryAllocateFrom at h
   by_cases h0 : count = 0
   · rw [if_pos h0] at h; cases h
@@ -619,45 +762,119 @@ theorem tryAllocateFrom_range (hostOff count : Nat) (d : Dev) (g : Geom d.info)
     · cases h
     · cases h
 
-theorem allocateLoop_range (count : Nat) (i : Info) (g : Geom i) (hsl : i.rbSliceBits ≤ i.cb) (L fuel : Nat) :
-    ∀ hostOff (d : Dev), d.info = i → d.rtLen = L → ∀ o n,
-      (allocateLoop count fuel hostOff d).2 = .ok (some (o, n)) → Host.rtIndex i o < L := by
+theorem allocateLoop_range (count : Nat) (i : Info) (g : Geom i) (hsl : i.rbSliceBits ≤ i.cb) (fuel : Nat) :
+    ∀ hostOff (d : Dev), d.info = i → ∀ o n,
+      (allocateLoop count fuel hostOff d).2 = .ok (some (o, n)) →
+        Host.rtIndex i o < (allocateLoop count fuel hostOff d).1.rtLen := by
   induction fuel with
-  | zero => intro hostOff d _ _ o n h; cases h
+  | zero => intro hostOff d _ o n h; cases h
   | succ fuel ih =>
-    intro hostOff d hi hL o n h
-    subst hi hL
-    rw [allocateLoop] at h
-    dsimp only at h
+    intro hostOff d hi o n h
+    subst hi
+    rw [allocateLoop] at h ⊢
+    dsimp only at h ⊢
     have hr := tryAllocateFrom_range hostOff count d g hsl
-    obtain ⟨e1, e2, _⟩ := tryAllocateFrom_sameInfo hostOff count d
-    generalize tryAllocateFrom hostOff count d = r at h hr e1 e2
+    obtain ⟨e1, _⟩ := tryAllocateFrom_sameInfo hostOff count d
+    generalize tryAllocateFrom hostOff count d = r at h hr e1 ⊢
     rcases r with ⟨d1, (_ | ⟨o', n'⟩) | e | p⟩
-    · exact ih _ d1 e1 e2 o n h
-    · dsimp only at h
+    · dsimp only at h hr e1 ⊢
+      have := ih (Host.rbHostEnd d1.info hostOff) d1 e1 o n h
+      exact this
+    · dsimp only at h hr ⊢
       simp only [Outcome.ok.injEq, Option.some.injEq, Prod.mk.injEq] at h
       rw [← h.1]
-      exact hr o' n' rfl
+      split <;> exact hr o' n' rfl
     · cases h
     · cases h
 
 /-- the run handed out by `allocate_clusters` starts inside the area covered by the
-    reftable (needs the geometry equations and `rb_slice_bits ≤ cluster_bits`) -/
+    reftable (needs the geometry equations and `rb_slice_bits ≤ cluster_bits`).
+    CHANGED (reftable growth): the reftable meant is the one after the call (`d'.rtLen`;
+    it was `d.rtLen`, which is the same when the call did not grow the table). -/
 theorem allocateClusters_range (count : Nat) (d d' : Dev) (g : Geom d.info)
     (hsl : d.info.rbSliceBits ≤ d.info.cb) (host n : Nat)
     (h : allocateClusters count d = (d', .ok (some (host, n)))) :
-    Host.rtIndex d.info host < d.rtLen ∧
-    host < d.rtLen * d.info.rbEntries * d.info.clusterSize := by
-  have h1 : Host.rtIndex d.info host < d.rtLen := by
-    apply allocateLoop_range count d.info g hsl d.rtLen (d.rtLen + 2) d.hint d rfl rfl host n
+    Host.rtIndex d.info host < d'.rtLen ∧
+    host < d'.rtLen * d.info.rbEntries * d.info.clusterSize := by
+  have h1 : Host.rtIndex d.info host < d'.rtLen := by
+    have := allocateLoop_range count d.info g hsl (d.rtLen + 2) d.hint d rfl host n (by
+      unfold allocateClusters at h
+      rw [h])
     unfold allocateClusters at h
-    rw [h]
+    rw [h] at this
+    exact this
   refine ⟨h1, ?_⟩
   unfold Host.rtIndex at h1
   rw [Nat.div_lt_iff_lt_mul (Nat.two_pow_pos _), Nat.pow_add, g.rbIndexShift_eq] at h1
   unfold Info.clusterSize
   rw [Nat.mul_assoc]
   exact h1
+
+/-! ### the run itself, with or without growth -/
+
+/-- a returned run is non-empty, no longer than requested, cluster aligned, and its
+    clusters end with refcount 1 -/
+def RunOk (i : Info) (count : Nat) (r : Dev × Outcome (Option (Nat × Nat))) : Prop :=
+  ∀ o n, r.2 = .ok (some (o, n)) → 1 ≤ n ∧ n ≤ count ∧ o % i.clusterSize = 0 ∧
+    ∀ c, o / i.clusterSize ≤ c → c < o / i.clusterSize + n → r.1.rc.get c = 1
+
+theorem tryAllocateFrom_runOk (hostOff count : Nat) (d : Dev) :
+    RunOk d.info count (tryAllocateFrom hostOff count d) := by
+  unfold tryAllocateFrom
+  by_cases h0 : count = 0
+  · rw [if_pos h0]; intro o n h; cases h
+  · rw [if_neg h0]
+    have hi := (ensureRefblock_facts hostOff d).1
+    generalize ensureRefblock hostOff d = re at hi
+    rcases re with ⟨d1, _ | e | p⟩
+    · dsimp only at hi ⊢
+      have post := tryAllocateLoop_post (Host.rbHostEnd d1.info hostOff) count d1
+        (2 * (d1.info.rbEntries / max d1.info.rbSliceEntries 1 + 2 + count) + 4) hostOff count 0 0 d1
+        ⟨RcFrame.refl d1, rfl, fun _ _ => rfl, fun h => absurd rfl h⟩
+      generalize tryAllocateLoop (Host.rbHostEnd d1.info hostOff) count
+        (2 * (d1.info.rbEntries / max d1.info.rbSliceEntries 1 + 2 + count) + 4) hostOff count 0 0 d1 = r at post
+      intro o n h
+      obtain ⟨d2, o2⟩ := r
+      dsimp only at h
+      subst h
+      obtain ⟨_, p1, p2, p3, p4, _⟩ := post
+      rw [hi] at p3 p4
+      exact ⟨p1, p2, p3, fun c c1 c2 => (p4 c c1 c2).2⟩
+    · intro o n h; cases h
+    · intro o n h; cases h
+
+theorem allocateLoop_runOk (count : Nat) (i : Info) (fuel : Nat) :
+    ∀ hostOff (d : Dev), d.info = i → RunOk i count (allocateLoop count fuel hostOff d) := by
+  induction fuel with
+  | zero => intro hostOff d _ o n h; cases h
+  | succ fuel ih =>
+    intro hostOff d hi
+    subst hi
+    rw [allocateLoop]
+    dsimp only
+    have hr := tryAllocateFrom_runOk hostOff count d
+    obtain ⟨e1, _⟩ := tryAllocateFrom_sameInfo hostOff count d
+    generalize tryAllocateFrom hostOff count d = r at hr e1
+    rcases r with ⟨d1, (_ | ⟨o', n'⟩) | e | p⟩
+    · exact ih _ d1 e1
+    · dsimp only
+      intro o n h
+      have := hr o' n' rfl
+      dsimp only at h this ⊢
+      simp only [Outcome.ok.injEq, Option.some.injEq, Prod.mk.injEq] at h
+      obtain ⟨rfl, rfl⟩ := h
+      split
+      · exact this
+      · exact this
+    · intro o n h; cases h
+    · intro o n h; cases h
+
+/-- NEW: what a successful `allocate_clusters` guarantees about the run whether or not
+    the reftable grew (what is lost with growth: "the run was free before" and "no
+    other refcount changes", which need the accounting invariant, see C12) -/
+theorem allocateClusters_runOk (count : Nat) (d : Dev) :
+    RunOk d.info count (allocateClusters count d) :=
+  allocateLoop_runOk count d.info _ _ d rfl
 
 /-! ### a successful single-cluster allocation (non-vacuity of the above) -/
 
@@ -698,21 +915,20 @@ theorem ensureRefblock_present (off : Nat) (d : Dev)
     (hrt : Host.rtIndex d.info off < d.rtLen)
     (hnz : RT.isZero (d.rt.get (Host.rtIndex d.info off)) = false) :
     ensureRefblock off d = (d, .ok ()) := by
-  unfold ensureRefblock
-  dsimp only
-  rw [if_pos hrt, if_pos (by rw [hnz]; simp)]
+  rw [ensureRefblock_inb hrt, ensureRefblockIn_eq, if_neg (not_not_intro hrt), if_neg (by rw [hnz]; simp)]
 
 theorem tryAllocateFrom_one_free (off : Nat) (d : Dev) (g : Geom d.info)
     (hrt : Host.rtIndex d.info off < d.rtLen)
     (hnz : RT.isZero (d.rt.get (Host.rtIndex d.info off)) = false)
     (hfree : d.rc.get (off / d.info.clusterSize) = 0) :
     ∃ d', tryAllocateFrom off 1 d =
-      (d', .ok (some (off / d.info.clusterSize * d.info.clusterSize, 1))) ∧ d'.info = d.info := by
+      (d', .ok (some (off / d.info.clusterSize * d.info.clusterSize, 1))) ∧ d'.info = d.info ∧
+      d'.rtLen = d.rtLen := by
   obtain ⟨_, _, _, _, _, hend⟩ := Qv.Props.C15.host_partition g off
   obtain ⟨_, hb⟩ := Qv.Props.C15.host_bounds g off
   obtain ⟨d', hd'⟩ := tryAlloc_one_free off (decide ((0:Nat) ≠ 0)) d g hfree
   have hi' : d'.info = d.info := (tryAlloc_rcFrame hd').info
-  refine ⟨d', ?_, hi'⟩
+  refine ⟨d', ?_, hi', (tryAlloc_rcFrame hd').rtLen⟩
   unfold tryAllocateFrom
   rw [if_neg (by decide), ensureRefblock_present off d hrt hnz]
   dsimp only
@@ -739,21 +955,23 @@ theorem tryAllocateFrom_one_free (off : Nat) (d : Dev) (g : Geom d.info)
   rw [step2]
 
 /-- `allocate_clusters(1)` succeeds at the hint when the hinted cluster is free
-    and its refblock exists -/
+    and its refblock exists (and then the reftable does not grow: `d'.rtLen = d.rtLen`,
+    added to the conclusion for the no-growth hypothesis of `allocateClusters_sound`) -/
 theorem allocateClusters_one_free_hint (d : Dev) (g : Geom d.info)
     (hrt : Host.rtIndex d.info d.hint < d.rtLen)
     (hnz : RT.isZero (d.rt.get (Host.rtIndex d.info d.hint)) = false)
     (hfree : d.rc.get (d.hint / d.info.clusterSize) = 0) :
     ∃ d', allocateClusters 1 d =
-      (d', .ok (some (d.hint / d.info.clusterSize * d.info.clusterSize, 1))) := by
-  obtain ⟨d', hd', _⟩ := tryAllocateFrom_one_free d.hint d g hrt hnz hfree
+      (d', .ok (some (d.hint / d.info.clusterSize * d.info.clusterSize, 1))) ∧
+      d'.rtLen = d.rtLen := by
+  obtain ⟨d', hd', _, hl'⟩ := tryAllocateFrom_one_free d.hint d g hrt hnz hfree
   unfold allocateClusters
   rw [allocateLoop, ]
   dsimp only
   rw [hd']
   dsimp only
   rw [if_pos rfl]
-  exact ⟨_, rfl⟩
+  exact ⟨_, rfl, hl'⟩
 
 /-! ## 2. write and read path -/
 
@@ -1148,7 +1366,7 @@ theorem populateSingle_alloc (off : Nat) (d d1 : Dev) (h n : Nat)
     (hun : (d.mapping off).source = .unallocated)
     (hl1 : L1.isZero (d.l1Entry off) = false)
     (ha : allocateClusters 1 d = (d1, .ok (some (h, n))))
-    (hfr : AllocFrame d d1) :
+    (hfr : GrowFrame d d1) :
     populateSingle off d =
       (newMapped d1 ((h / d.info.clusterSize) :: d.newData) off h, .ok (L2.mapClusterEntry h)) := by
   obtain ⟨hz, hpl⟩ := unallocated_entry hun
@@ -1156,12 +1374,12 @@ theorem populateSingle_alloc (off : Nat) (d d1 : Dev) (h n : Nat)
     show (L2.plainOffset (L2.intoMapping _ _ _ _) 0).isNone = true
     rw [hpl]; rfl
   have hent1 : d1.l2Entry off = d.l2Entry off := by
-    obtain ⟨_, _, _, _, rfl⟩ := hfr; rfl
+    obtain ⟨_, _, _, _, _, _, _, rfl⟩ := hfr; rfl
   have hi1 : d1.info = d.info := hfr.info
   have hnd1 : d1.newData = d.newData := by
-    obtain ⟨_, _, _, _, rfl⟩ := hfr; rfl
+    obtain ⟨_, _, _, _, _, _, _, rfl⟩ := hfr; rfl
   have hl11 : d1.l1Entry off = d.l1Entry off := by
-    obtain ⟨_, _, _, _, rfl⟩ := hfr; rfl
+    obtain ⟨_, _, _, _, _, _, _, rfl⟩ := hfr; rfl
   have ham := allocAndMap_ok off d d1 h n ha (by rw [hent1]; exact hz) d.info.clusterSize
     (by rw [hi1]) d.newData hnd1
   unfold populateSingle
@@ -1212,38 +1430,37 @@ theorem pow_mod_pow_of_le {a b : Nat} (h : a ≤ b) : 2^b % 2^a = 0 := by
   rw [this, Nat.pow_add]
   exact Nat.mul_mod_right _ _
 
-theorem write_new_cluster (d d1 : Dev) (off len h n : Nat) (toks : List Nat)
+/-- first write into an unallocated cluster, given the allocation `ha` and that the
+    cluster handed out is not cluster 0.  Holds with or without reftable growth. -/
+theorem write_new_cluster_grow (d d1 : Dev) (off len h n : Nat) (toks : List Nat)
     (hc : writeCheck d.info off len = none) (hl : len ≠ 0)
     (hsingle : off / d.info.clusterSize = (off + len - 1) / d.info.clusterSize)
     (hback : d.info.hasBack = false)
     (hun : (d.mapping off).source = .unallocated)
     (hl1 : L1.isZero (d.l1Entry off) = false)
     (hcb : 9 ≤ d.info.cb)
-    (hhdr : d.rc.get 0 ≠ 0)
+    (hpos : 0 < h)
     (ha : allocateClusters 1 d = (d1, .ok (some (h, n))))
     (h56 : h < 2^56) :
     writeAt off len toks d =
       (zeroedWrite (newMapped d1 ((h / d.info.clusterSize) :: d.newData) off h) off h toks, .ok ()) ∧
-    h % 512 = 0 ∧ 0 < h ∧ d1.info = d.info ∧ d1.data = d.data ∧
+    h % 512 = 0 ∧ d1.info = d.info ∧ d1.data = d.data ∧
     (∀ gc, L2.intoMapping d.info.cb d.info.hasBack gc (L2.mapClusterEntry h)
       = { source := .dataFile, clusterOffset := some h, compressedLength := none, copied := true }) := by
-  have post := allocateClusters_post 1 d
-  rw [ha] at post
-  obtain ⟨⟨fr, _⟩, n1, _, hal, hrun, _⟩ := post
-  dsimp only at fr hrun
+  have fr : GrowFrame d d1 := by
+    have := (allocateClusters_growFrame 1 d).frame
+    rw [ha] at this; exact this
+  have hal : h % d.info.clusterSize = 0 := by
+    have := allocateClusters_runOk 1 d
+    rw [ha] at this
+    exact (this h n rfl).2.2.1
   have hi1 : d1.info = d.info := fr.info
-  have hdata : d1.data = d.data := by obtain ⟨_, _, _, _, rfl⟩ := fr; rfl
+  have hdata : d1.data = d.data := by obtain ⟨_, _, _, _, _, _, _, rfl⟩ := fr; rfl
   have h512 := mod512_of_mod_cs hcb hal
-  have hpos : 0 < h := by
-    apply Nat.pos_of_ne_zero
-    intro h0
-    subst h0
-    have := (hrun 0 (by simp) (by simp; omega)).1
-    exact hhdr this
   have hdec : ∀ gc, L2.intoMapping d.info.cb d.info.hasBack gc (L2.mapClusterEntry h)
       = { source := .dataFile, clusterOffset := some h, compressedLength := none, copied := true } :=
     fun gc => L2.mapClusterEntry_intoMapping _ _ gc h h512 hpos h56
-  refine ⟨?_, h512, hpos, hi1, hdata, hdec⟩
+  refine ⟨?_, h512, hi1, hdata, hdec⟩
   unfold writeAt
   dsimp only
   rw [hc]
@@ -1256,6 +1473,39 @@ theorem write_new_cluster (d d1 : Dev) (off len h n : Nat) (toks : List Nat)
   · rw [hiD]
     show ((h / d.info.clusterSize) :: d.newData).contains (h / d.info.clusterSize) = true
     simp
+
+/-- CHANGED (reftable growth): hypothesis `hng` added — the allocation did not grow the
+    reftable; then "cluster 0 is in use" (`hhdr`) excludes `h = 0`, because the run was
+    free before.  With growth use `write_new_cluster_grow` (hypothesis `0 < h` instead). -/
+theorem write_new_cluster (d d1 : Dev) (off len h n : Nat) (toks : List Nat)
+    (hc : writeCheck d.info off len = none) (hl : len ≠ 0)
+    (hsingle : off / d.info.clusterSize = (off + len - 1) / d.info.clusterSize)
+    (hback : d.info.hasBack = false)
+    (hun : (d.mapping off).source = .unallocated)
+    (hl1 : L1.isZero (d.l1Entry off) = false)
+    (hcb : 9 ≤ d.info.cb)
+    (hhdr : d.rc.get 0 ≠ 0)
+    (ha : allocateClusters 1 d = (d1, .ok (some (h, n))))
+    (hng : d1.rtLen = d.rtLen)
+    (h56 : h < 2^56) :
+    writeAt off len toks d =
+      (zeroedWrite (newMapped d1 ((h / d.info.clusterSize) :: d.newData) off h) off h toks, .ok ()) ∧
+    h % 512 = 0 ∧ 0 < h ∧ d1.info = d.info ∧ d1.data = d.data ∧
+    (∀ gc, L2.intoMapping d.info.cb d.info.hasBack gc (L2.mapClusterEntry h)
+      = { source := .dataFile, clusterOffset := some h, compressedLength := none, copied := true }) := by
+  have post := allocateClusters_post 1 d (by rw [ha]; exact hng)
+  rw [ha] at post
+  obtain ⟨_, n1, _, hal, hrun, _⟩ := post
+  dsimp only at hrun
+  have hpos : 0 < h := by
+    apply Nat.pos_of_ne_zero
+    intro h0
+    subst h0
+    have := (hrun 0 (by simp) (by simp; omega)).1
+    exact hhdr this
+  obtain ⟨a, b, c, e, f⟩ :=
+    write_new_cluster_grow d d1 off len h n toks hc hl hsingle hback hun hl1 hcb hpos ha h56
+  exact ⟨a, b, hpos, c, e, f⟩
 
 /-- reading back the whole cluster after the first write into a new cluster:
     the written tokens at their place, zeros elsewhere -/
